@@ -192,7 +192,19 @@ def _close_context(plan):
             if (a < b and V[a]["kind"] == V[b]["kind"] and span(a) == span(b)
                     and abs(V[a]["g"] - V[b]["g"]) <= 60 and carriers(a) != carriers(b)):
                 trans |= {a, b}
-    return {"cis_indels": sorted(cis), "same_site": sorted(same), "trans_indels": sorted(trans)}
+    # (multi) a site at which the planted copies show two or more different substitutions and no copy shows
+    # the reference base (the minor model's non-mutation bound, see the C04 finding)
+    multi = set()
+    by_site = {}
+    for vs_ in per_unit:
+        for k in vs_:
+            if V[k]["kind"] == "snp":
+                by_site.setdefault(V[k]["g"], []).append(k)
+    for gpos, ks in by_site.items():
+        if len(set(ks)) >= 2 and len(ks) == len(per_unit):
+            multi |= set(ks)
+    return {"cis_indels": sorted(cis), "same_site": sorted(same), "trans_indels": sorted(trans),
+            "multiallelic_no_reference": sorted(multi)}
 
 
 def _major_funcs(g, name, drop):
@@ -219,15 +231,33 @@ def judge(plan, outcome):
     units = plan["samples"]["s0"]["genes"][g["name"]]
     xt = _crosstalk(plan)
     cc = _close_context(plan)
-    ids = set(cc["cis_indels"]) | set(cc["same_site"]) | set(cc["trans_indels"])
+    ids = set(cc["cis_indels"]) | set(cc["same_site"]) | set(cc["trans_indels"]) | set(cc["multiallelic_no_reference"])
     shift = plan["world"]["hg38_shift"] if plan["build"] == "hg38" else 0
     idmuts = {tuple(W.expected_mutation(g["variants"][k], shift)) for k in ids}
     ccd = {k: [list(W.expected_mutation(g["variants"][x], shift)) for x in v] for k, v in cc.items() if v}
 
+    planted_ids = set()
+    for u in units:
+        if u["type"] != "deletion":
+            planted_ids |= set(W.unit_variants(g, u))
+    unplanted_indels = {k: tuple(W.expected_mutation(v, shift)) for k, v in g["variants"].items()
+                        if k not in planted_ids and v["kind"] in ("ins", "del")}
+
+    def phantom(r):
+        # catalogued indels no planted haplotype carries for which the realigner nevertheless reports
+        # supporting reads
+        ra = r.get("realigned") or {}
+        return {k: m for k, m in unplanted_indels.items() if (ra.get(f"{m[0]}:{m[1]}") or [0, 0])[1] > 0}
+
     def with_skips(r):
         # planted cis indels the realigner left without any count at all ([0, 0]: it skipped them)
         sk = [m for m in ccd.get("cis_indels", []) if (r.get("realigned") or {}).get(f"{m[0]}:{m[1]}") == [0, 0]]
-        return dict(ccd, realigner_skipped=sk) if sk else ccd
+        out = dict(ccd, realigner_skipped=sk) if sk else dict(ccd)
+        ph = phantom(r)
+        if ph:
+            out["realigner_support_for_unplanted_indels"] = [[m[0], m[1], (r["realigned"][f"{m[0]}:{m[1]}"])]
+                                                             for m in sorted(ph.values())]
+        return out
     for i, r in enumerate(outcome["runs"]):
         env = {"solver": "plain" if i == 0 else f"adversary:{plan['advs'][i - 1]}", "units": units,
                "read_length": plan["world"]["reads"]["L"], "strand": g["strand"], "build": plan["build"]}
@@ -245,6 +275,8 @@ def judge(plan, outcome):
                          planted=r["planted_majors"], reported=r["reported_majors"],
                          neighbouring_unplanted_indels=xt, close_context=with_skips(r),
                          confined=bool(ids) and _confined_majors(g, r["planted_majors"], r["reported_majors"], ids),
+                         confined_to_phantom=bool(phantom(r)) and _confined_majors(
+                             g, r["planted_majors"], r["reported_majors"], set(phantom(r))),
                          **env))
         for k, s in enumerate(r["solutions"]):
             if s["variants"] != r["planted_variants"]:
@@ -254,6 +286,8 @@ def judge(plan, outcome):
                              lost=[list(x) for x in (want - got)][:4], score=s["score"],
                              neighbouring_unplanted_indels=xt, close_context=with_skips(r),
                              confined=bool(ids) and all(x in idmuts for x in list(got - want) + list(want - got)),
+                             confined_to_phantom=bool(got - want) and not (want - got)
+                             and all(x in set(phantom(r).values()) for x in (got - want)),
                              **env))
                 break
     return vs
@@ -279,6 +313,10 @@ def signature(v):
             sig["kind"] = "close-cis-indels"
         elif cc.get("trans_indels") and v["clause"] != "planted sample ended in an error":
             sig["kind"] = "planted-indel-crosstalk"
+        elif cc.get("multiallelic_no_reference"):
+            sig["kind"] = "multiallelic-site-without-reference-reads"
+    if "kind" not in sig and d.get("confined_to_phantom"):
+        sig["kind"] = "realigner-support-for-unplanted-indel"
     return sig
 
 
